@@ -9,6 +9,11 @@
      abs_no_stranded_single_receiver : exactly one receiver -> no reachable state is stranded
      abs_stranded_example            : 3 senders + 2 receivers, capacity 2: a stranded
                                        state is reachable (finding F-C11)
+   Second part (end of the file): the TWO-LIST protocol (the repair: separate
+   lists of blocked senders and blocked receivers):
+     abs2_no_stranded                : any senders / receivers / counts / capacity:
+                                       no reachable state is stranded
+     abs2_obligation                 : the same as an obligation per kind
    Stdlib only. *)
 From Coq Require Import List Arith Lia Bool.
 Import ListNotations.
@@ -470,3 +475,347 @@ Qed.
 Lemma ex_kinds :
   map (fun i => fkind (fib ex_init i)) [0; 1; 2; 3; 4] = [Sender; Sender; Sender; Receiver; Receiver].
 Proof. reflexivity. Qed.
+
+(* ====================================================================== *)
+(* THE TWO-LIST PROTOCOL (the repair in /repo: blocked senders and blocked
+   receivers wait in SEPARATE lists; a completed send wakes the top blocked
+   receiver, a completed receive wakes the top blocked sender).
+   Result: abs2_no_stranded -- for ANY number of senders and receivers, any
+   remaining counts, any capacity > 0, no reachable state is stranded. *)
+
+(* ws = blocked senders, wr = blocked receivers, both TOP FIRST *)
+Record ast2 := { cnt2 : nat; ws : list nat; wr : list nat; fib2 : nat -> fiber }.
+
+(* the list fibers of kind k wait in *)
+Definition wlk (k : kind) (st : ast2) : list nat :=
+  match k with Sender => ws st | Receiver => wr st end.
+
+(* build a state from the list of kind k (lk) and the list of the other kind (lo) *)
+Definition mk2 (c : nat) (k : kind) (lk lo : list nat) (f : nat -> fiber) : ast2 :=
+  match k with
+  | Sender => {| cnt2 := c; ws := lk; wr := lo; fib2 := f |}
+  | Receiver => {| cnt2 := c; ws := lo; wr := lk; fib2 := f |}
+  end.
+
+(* one attempt of fiber i (of kind k): if it can proceed, the counter moves,
+   one operation is done and the top of the OTHER kind's list is woken;
+   otherwise it blocks on its OWN kind's list *)
+Definition astep2 (size : nat) (st : ast2) (i : nat) : ast2 :=
+  let f := fib2 st i in
+  let k := fkind f in
+  if can size k (cnt2 st) then
+    let fb := updf (fib2 st) i {| fkind := k; frem := pred (frem f); fawake := true |} in
+    match wlk (opp k) st with
+    | [] => mk2 (bump k (cnt2 st)) k (wlk k st) [] fb
+    | j :: r => mk2 (bump k (cnt2 st)) k (wlk k st) r (updf fb j (set_awake (fb j) true))
+    end
+  else mk2 (cnt2 st) k (i :: wlk k st) (wlk (opp k) st) (updf (fib2 st) i (set_awake f false)).
+
+(* the step, spelled out by kind (sanity: this is the protocol as specified) *)
+Lemma astep2_sender size st i :
+  fkind (fib2 st i) = Sender ->
+  astep2 size st i =
+  let f := fib2 st i in
+  if cnt2 st <? size then
+    let fb := updf (fib2 st) i {| fkind := Sender; frem := pred (frem f); fawake := true |} in
+    match wr st with
+    | [] => {| cnt2 := S (cnt2 st); ws := ws st; wr := []; fib2 := fb |}
+    | j :: r => {| cnt2 := S (cnt2 st); ws := ws st; wr := r;
+                   fib2 := updf fb j (set_awake (fb j) true) |}
+    end
+  else {| cnt2 := cnt2 st; ws := i :: ws st; wr := wr st;
+          fib2 := updf (fib2 st) i (set_awake f false) |}.
+Proof. intros H. unfold astep2. rewrite H. reflexivity. Qed.
+
+Lemma astep2_receiver size st i :
+  fkind (fib2 st i) = Receiver ->
+  astep2 size st i =
+  let f := fib2 st i in
+  if 0 <? cnt2 st then
+    let fb := updf (fib2 st) i {| fkind := Receiver; frem := pred (frem f); fawake := true |} in
+    match ws st with
+    | [] => {| cnt2 := pred (cnt2 st); ws := []; wr := wr st; fib2 := fb |}
+    | j :: r => {| cnt2 := pred (cnt2 st); ws := r; wr := wr st;
+                   fib2 := updf fb j (set_awake (fb j) true) |}
+    end
+  else {| cnt2 := cnt2 st; ws := ws st; wr := i :: wr st;
+          fib2 := updf (fib2 st) i (set_awake f false) |}.
+Proof. intros H. unfold astep2. rewrite H. reflexivity. Qed.
+
+Definition enabled2 (nfib : nat) (st : ast2) (i : nat) : Prop :=
+  i < nfib /\ fawake (fib2 st i) = true /\ 0 < frem (fib2 st i).
+
+Definition ainit2 (st : ast2) : Prop :=
+  cnt2 st = 0 /\ ws st = [] /\ wr st = [] /\ forall i, fawake (fib2 st i) = true.
+
+Inductive areach2 (size nfib : nat) (st0 : ast2) : ast2 -> Prop :=
+| ar2_init : areach2 size nfib st0 st0
+| ar2_step st i : areach2 size nfib st0 st -> enabled2 nfib st i ->
+                  areach2 size nfib st0 (astep2 size st i).
+
+Definition stranded2 (size nfib : nat) (st : ast2) : Prop :=
+  (forall i, i < nfib -> ~ (fawake (fib2 st i) = true /\ 0 < frem (fib2 st i))) /\
+  exists i, i < nfib /\ fawake (fib2 st i) = false /\
+            ((fkind (fib2 st i) = Sender /\ cnt2 st < size) \/
+             (fkind (fib2 st i) = Receiver /\ 0 < cnt2 st)).
+
+(* ---------- accessors of mk2 ---------- *)
+Lemma wlk_mk2_same c k a b f : wlk k (mk2 c k a b f) = a.
+Proof. destruct k; reflexivity. Qed.
+Lemma wlk_mk2_opp c k a b f : wlk (opp k) (mk2 c k a b f) = b.
+Proof. destruct k; reflexivity. Qed.
+Lemma cnt2_mk2 c k a b f : cnt2 (mk2 c k a b f) = c.
+Proof. destruct k; reflexivity. Qed.
+Lemma fib2_mk2 c k a b f : fib2 (mk2 c k a b f) = f.
+Proof. destruct k; reflexivity. Qed.
+
+Lemma kind_cases k k' : k' = k \/ k' = opp k.
+Proof. destruct k, k'; auto. Qed.
+Lemma opp_neq k : opp k <> k.
+Proof. destruct k; discriminate. Qed.
+
+Definition kind_eqb (a b : kind) : bool :=
+  match a, b with Sender, Sender => true | Receiver, Receiver => true | _, _ => false end.
+Lemma kind_eqb_refl k : kind_eqb k k = true. Proof. destruct k; reflexivity. Qed.
+Lemma kind_eqb_eq a b : kind_eqb a b = true -> a = b.
+Proof. destruct a, b; cbn; congruence. Qed.
+Lemma kind_eqb_neq a b : a <> b -> kind_eqb a b = false.
+Proof. destruct a, b; cbn; congruence. Qed.
+
+(* fiber i has kind k, is awake and has something left to do *)
+Definition actk (k : kind) (f : nat -> fiber) (i : nat) : bool :=
+  kind_eqb (fkind (f i)) k && fawake (f i) && (0 <? frem (f i)).
+
+Record Inv2 (size nfib : nat) (st : ast2) : Prop := {
+  j_cnt : cnt2 st <= size;
+  j_nodup : forall k, NoDup (wlk k st);
+  (* I0 *)
+  j_wl : forall k i, In i (wlk k st) ->
+         i < nfib /\ fkind (fib2 st i) = k /\ fawake (fib2 st i) = false /\ 0 < frem (fib2 st i);
+  j_blk : forall i, i < nfib -> fawake (fib2 st i) = false -> In i (wlk (fkind (fib2 st i)) st);
+  (* IS (k = Sender) / IR (k = Receiver): if a fiber of kind k waits, what that kind
+     could still do to the buffer is covered by its awake members with work left *)
+  j_cov : forall k, wlk k st <> [] -> avail size k (cnt2 st) <= count (actk k (fib2 st)) nfib
+}.
+
+Lemma inv2_init size nfib st : ainit2 st -> Inv2 size nfib st.
+Proof.
+  intros (Hc & Hs & Hr & Ha). split.
+  - lia.
+  - intros []; cbn; [rewrite Hs | rewrite Hr]; constructor.
+  - intros [] i; cbn; [rewrite Hs | rewrite Hr]; intros [].
+  - intros i _ H. rewrite Ha in H. discriminate.
+  - intros []; cbn; [rewrite Hs | rewrite Hr]; congruence.
+Qed.
+
+Lemma inv2_step size nfib st i :
+  Inv2 size nfib st -> enabled2 nfib st i -> Inv2 size nfib (astep2 size st i).
+Proof.
+  intros I (Hi & Haw & Hrem).
+  destruct I as [Icnt Ind Iwl Iblk Icov].
+  assert (Hnotin : forall k, ~ In i (wlk k st)).
+  { intros k H. apply Iwl in H. destruct H as (_ & _ & H & _). congruence. }
+  unfold astep2. set (f := fib2 st i) in *. set (k := fkind f) in *.
+  destruct (can size k (cnt2 st)) eqn:Hcan.
+  - (* the operation is performed *)
+    set (fi := {| fkind := k; frem := pred (frem f); fawake := true |}).
+    set (fb := updf (fib2 st) i fi).
+    assert (Hfb_kind : forall x, fkind (fb x) = fkind (fib2 st x)).
+    { intros x. unfold fb. destruct (Nat.eq_dec x i) as [->|N].
+      - rewrite updf_same. reflexivity.
+      - rewrite updf_other by exact N. reflexivity. }
+    (* the first update and the two counts *)
+    assert (Hck : count (actk k fb) nfib + 1 = count (actk k (fib2 st)) nfib + b2n (actk k fb i)).
+    { assert (actk k (fib2 st) i = true) as E1.
+      { unfold actk. fold f. fold k. rewrite kind_eqb_refl, Haw.
+        assert (0 <? frem f = true) as -> by (apply Nat.ltb_lt; exact Hrem). reflexivity. }
+      pose proof (count_upd1 (actk k (fib2 st)) (actk k fb) nfib i Hi) as C.
+      rewrite E1 in C. apply C. intros x N. unfold actk, fb. rewrite updf_other by exact N. reflexivity. }
+    assert (Hco : count (actk (opp k) fb) nfib = count (actk (opp k) (fib2 st)) nfib).
+    { apply count_ext. intros x _. unfold actk, fb. destruct (Nat.eq_dec x i) as [->|N].
+      - rewrite updf_same. change (fkind fi) with k. change (fkind (fib2 st i)) with k.
+        rewrite (kind_eqb_neq k (opp k)) by (intros E; symmetry in E; exact (opp_neq k E)). reflexivity.
+      - rewrite updf_other by exact N. reflexivity. }
+    pose proof (avail_bump_same size k (cnt2 st) Icnt Hcan) as Hbs.
+    pose proof (avail_bump_opp size k (cnt2 st) Icnt Hcan) as Hbo.
+    destruct (wlk (opp k) st) as [|j r] eqn:Hwl.
+    + (* nobody to wake *)
+      split.
+      * rewrite cnt2_mk2. apply bump_le; assumption.
+      * intros k'. destruct (kind_cases k k') as [->| ->].
+        -- rewrite wlk_mk2_same. apply Ind.
+        -- rewrite wlk_mk2_opp. constructor.
+      * intros k' x. rewrite fib2_mk2. destruct (kind_cases k k') as [->| ->].
+        -- rewrite wlk_mk2_same. intros Hx.
+           assert (x <> i) by (intros ->; exact (Hnotin k Hx)).
+           unfold fb. rewrite updf_other by assumption. apply Iwl. exact Hx.
+        -- rewrite wlk_mk2_opp. intros [].
+      * intros x Hx. rewrite fib2_mk2. rewrite Hfb_kind. intros Hb.
+        unfold fb in Hb. destruct (Nat.eq_dec x i) as [->|N].
+        -- rewrite updf_same in Hb. discriminate.
+        -- rewrite updf_other in Hb by exact N. pose proof (Iblk x Hx Hb) as Hin.
+           destruct (kind_cases k (fkind (fib2 st x))) as [E|E]; rewrite E in *.
+           ++ rewrite wlk_mk2_same. exact Hin.
+           ++ rewrite Hwl in Hin. destruct Hin.
+      * intros k'. rewrite cnt2_mk2, fib2_mk2. destruct (kind_cases k k') as [->| ->].
+        -- rewrite wlk_mk2_same. intros Hne. specialize (Icov k Hne).
+           destruct (actk k fb i); cbn [b2n] in Hck; lia.
+        -- rewrite wlk_mk2_opp. congruence.
+    + (* wake the top j of the other kind's list *)
+      assert (Hj : In j (wlk (opp k) st)) by (rewrite Hwl; left; reflexivity).
+      destruct (Iwl (opp k) j Hj) as (Hjn & Hjk & Hjb & Hjr).
+      assert (Hji : j <> i) by (intros ->; exact (Hnotin (opp k) Hj)).
+      pose proof (Ind (opp k)) as Ndo. rewrite Hwl in Ndo.
+      inversion Ndo as [|? ? Hjr' Ndr]; subst.
+      set (fj := set_awake (fb j) true).
+      assert (Hfbj : fb j = fib2 st j) by (unfold fb; apply updf_other; exact Hji).
+      (* the second update and the two counts *)
+      assert (Hck2 : count (actk k (updf fb j fj)) nfib = count (actk k fb) nfib).
+      { apply count_ext. intros x _. unfold actk. destruct (Nat.eq_dec x j) as [->|N].
+        - rewrite updf_same. unfold fj, set_awake. cbn [fkind frem fawake]. rewrite Hfbj, Hjk.
+          rewrite (kind_eqb_neq (opp k) k) by (apply opp_neq). reflexivity.
+        - rewrite updf_other by exact N. reflexivity. }
+      assert (Hco2 : count (actk (opp k) (updf fb j fj)) nfib = count (actk (opp k) fb) nfib + 1).
+      { pose proof (count_upd1 (actk (opp k) fb) (actk (opp k) (updf fb j fj)) nfib j Hjn) as C.
+        assert (actk (opp k) fb j = false) as E1.
+        { unfold actk. rewrite Hfbj, Hjb. rewrite andb_false_r. reflexivity. }
+        assert (actk (opp k) (updf fb j fj) j = true) as E2.
+        { unfold actk. rewrite updf_same. unfold fj, set_awake. cbn [fkind frem fawake].
+          rewrite Hfbj, Hjk, kind_eqb_refl.
+          assert (0 <? frem (fib2 st j) = true) as -> by (apply Nat.ltb_lt; exact Hjr). reflexivity. }
+        rewrite E1, E2 in C. cbn [b2n] in C. rewrite Nat.add_0_r in C. apply C.
+        intros x N. unfold actk. rewrite updf_other by exact N. reflexivity. }
+      split.
+      * rewrite cnt2_mk2. apply bump_le; assumption.
+      * intros k'. destruct (kind_cases k k') as [->| ->].
+        -- rewrite wlk_mk2_same. apply Ind.
+        -- rewrite wlk_mk2_opp. exact Ndr.
+      * intros k' x. rewrite fib2_mk2. destruct (kind_cases k k') as [->| ->].
+        -- rewrite wlk_mk2_same. intros Hx.
+           assert (x <> i) by (intros ->; exact (Hnotin k Hx)).
+           assert (x <> j).
+           { intros ->. destruct (Iwl k j Hx) as (_ & Ek & _). rewrite Hjk in Ek. exact (opp_neq k Ek). }
+           rewrite updf_other by assumption. unfold fb. rewrite updf_other by assumption.
+           apply Iwl. exact Hx.
+        -- rewrite wlk_mk2_opp. intros Hx.
+           assert (x <> j) by (intros ->; contradiction).
+           assert (Hx' : In x (wlk (opp k) st)) by (rewrite Hwl; right; exact Hx).
+           assert (x <> i) by (intros ->; exact (Hnotin (opp k) Hx')).
+           rewrite updf_other by assumption. unfold fb. rewrite updf_other by assumption.
+           apply Iwl. exact Hx'.
+      * intros x Hx. rewrite fib2_mk2.
+        destruct (Nat.eq_dec x j) as [->|N].
+        -- rewrite updf_same. unfold fj, set_awake. cbn [fawake]. discriminate.
+        -- rewrite updf_other by exact N. rewrite Hfb_kind. intros Hb.
+           unfold fb in Hb. destruct (Nat.eq_dec x i) as [->|N2].
+           ++ rewrite updf_same in Hb. discriminate.
+           ++ rewrite updf_other in Hb by exact N2. pose proof (Iblk x Hx Hb) as Hin.
+              destruct (kind_cases k (fkind (fib2 st x))) as [E|E]; rewrite E in *.
+              ** rewrite wlk_mk2_same. exact Hin.
+              ** rewrite wlk_mk2_opp. rewrite Hwl in Hin. destruct Hin as [E2|E2]; [congruence | exact E2].
+      * intros k'. rewrite cnt2_mk2, fib2_mk2. destruct (kind_cases k k') as [->| ->].
+        -- rewrite wlk_mk2_same. intros Hne. specialize (Icov k Hne).
+           rewrite Hck2. destruct (actk k fb i); cbn [b2n] in Hck; lia.
+        -- rewrite wlk_mk2_opp. intros _.
+           assert (Pre : avail size (opp k) (cnt2 st) <= count (actk (opp k) (fib2 st)) nfib).
+           { apply Icov. rewrite Hwl. discriminate. }
+           rewrite Hco2, Hco. lia.
+  - (* fiber i blocks on the list of its own kind *)
+    pose proof (cannot_avail _ _ _ Hcan) as Hav0.
+    assert (Hc1 : forall x, x <> i -> updf (fib2 st) i (set_awake f false) x = fib2 st x)
+      by (intros; apply updf_other; assumption).
+    split.
+    + rewrite cnt2_mk2. exact Icnt.
+    + intros k'. destruct (kind_cases k k') as [->| ->].
+      * rewrite wlk_mk2_same. constructor; [apply Hnotin | apply Ind].
+      * rewrite wlk_mk2_opp. apply Ind.
+    + intros k' x. rewrite fib2_mk2. destruct (kind_cases k k') as [->| ->].
+      * rewrite wlk_mk2_same. intros [<-|Hx].
+        -- rewrite updf_same. unfold set_awake. cbn [fkind frem fawake]. repeat split; try assumption; try reflexivity.
+        -- assert (x <> i) by (intros ->; exact (Hnotin k Hx)).
+           rewrite Hc1 by assumption. apply Iwl. exact Hx.
+      * rewrite wlk_mk2_opp. intros Hx.
+        assert (x <> i) by (intros ->; exact (Hnotin (opp k) Hx)).
+        rewrite Hc1 by assumption. apply Iwl. exact Hx.
+    + intros x Hx. rewrite fib2_mk2. destruct (Nat.eq_dec x i) as [->|N].
+      * rewrite updf_same. unfold set_awake. cbn [fkind fawake]. fold k. intros _.
+        rewrite wlk_mk2_same. left. reflexivity.
+      * rewrite Hc1 by exact N. intros Hb. pose proof (Iblk x Hx Hb) as Hin.
+        destruct (kind_cases k (fkind (fib2 st x))) as [E|E]; rewrite E in *.
+        -- rewrite wlk_mk2_same. right. exact Hin.
+        -- rewrite wlk_mk2_opp. exact Hin.
+    + intros k'. rewrite cnt2_mk2, fib2_mk2. destruct (kind_cases k k') as [->| ->].
+      * intros _. rewrite Hav0. lia.
+      * rewrite wlk_mk2_opp. intros Hne. specialize (Icov (opp k) Hne).
+        rewrite (count_ext _ (actk (opp k) (fib2 st))); [exact Icov|].
+        intros x _. unfold actk. destruct (Nat.eq_dec x i) as [->|N].
+        -- rewrite updf_same. unfold set_awake. cbn [fkind frem fawake].
+           change (fkind f) with k. change (fkind (fib2 st i)) with k.
+           rewrite (kind_eqb_neq k (opp k)) by (intros E; symmetry in E; exact (opp_neq k E)). reflexivity.
+        -- rewrite Hc1 by exact N. reflexivity.
+Qed.
+
+Lemma inv2_reach size nfib st0 st :
+  ainit2 st0 -> areach2 size nfib st0 st -> Inv2 size nfib st.
+Proof.
+  intros H0 R. induction R; [apply inv2_init; exact H0 | apply inv2_step; assumption].
+Qed.
+
+(* a blocked fiber of kind k that could proceed implies an awake fiber of the
+   same kind with work left *)
+Lemma inv2_obligation size nfib st k :
+  Inv2 size nfib st ->
+  (exists i, i < nfib /\ fawake (fib2 st i) = false /\ fkind (fib2 st i) = k /\
+             can size k (cnt2 st) = true) ->
+  exists j, j < nfib /\ fkind (fib2 st j) = k /\ fawake (fib2 st j) = true /\ 0 < frem (fib2 st j).
+Proof.
+  intros I (i & Hi & Hb & Hk & Hc).
+  pose proof (j_blk _ _ _ I i Hi Hb) as Hin. rewrite Hk in Hin.
+  assert (Hne : wlk k st <> []) by (intros E; rewrite E in Hin; destruct Hin).
+  pose proof (j_cov _ _ _ I k Hne) as Hcov. apply can_avail in Hc.
+  destruct (count_pos (actk k (fib2 st)) nfib ltac:(lia)) as (x & Hx & Hact).
+  unfold actk in Hact. apply andb_prop in Hact. destruct Hact as (Hact & Hr).
+  apply andb_prop in Hact. destruct Hact as (Hkx & Ha).
+  exists x. repeat split; [exact Hx | apply kind_eqb_eq; exact Hkx | exact Ha | apply Nat.ltb_lt; exact Hr].
+Qed.
+
+(* the obligation form: while a sender is blocked although the buffer has room,
+   some sender is awake with work left (so the system is not stuck on it);
+   symmetrically for receivers *)
+Theorem abs2_obligation :
+  forall (size nfib : nat) (st0 st : ast2),
+    0 < size -> ainit2 st0 -> areach2 size nfib st0 st ->
+    ((exists i, i < nfib /\ fawake (fib2 st i) = false /\ fkind (fib2 st i) = Sender) /\
+     cnt2 st < size ->
+     exists j, j < nfib /\ fkind (fib2 st j) = Sender /\ fawake (fib2 st j) = true /\
+               0 < frem (fib2 st j)) /\
+    ((exists i, i < nfib /\ fawake (fib2 st i) = false /\ fkind (fib2 st i) = Receiver) /\
+     0 < cnt2 st ->
+     exists j, j < nfib /\ fkind (fib2 st j) = Receiver /\ fawake (fib2 st j) = true /\
+               0 < frem (fib2 st j)).
+Proof.
+  intros size nfib st0 st _ H0 R. pose proof (inv2_reach size nfib st0 st H0 R) as I.
+  split; intros ((i & Hi & Hb & Hk) & Hc).
+  - apply (inv2_obligation size nfib st Sender I). exists i. repeat split; try assumption.
+    unfold can. apply Nat.ltb_lt. exact Hc.
+  - apply (inv2_obligation size nfib st Receiver I). exists i. repeat split; try assumption.
+    unfold can. apply Nat.ltb_lt. exact Hc.
+Qed.
+
+(* any number of senders and receivers, any remaining counts, any capacity *)
+Theorem abs2_no_stranded :
+  forall (size nfib : nat) (st0 st : ast2),
+    0 < size -> ainit2 st0 -> areach2 size nfib st0 st -> ~ stranded2 size nfib st.
+Proof.
+  intros size nfib st0 st _ H0 R (Hnone & i & Hi & Hb & Hcan).
+  pose proof (inv2_reach size nfib st0 st H0 R) as I.
+  assert (exists j, j < nfib /\ fawake (fib2 st j) = true /\ 0 < frem (fib2 st j)) as (j & Hj & Ha & Hr).
+  { destruct Hcan as [(Hk & Hc)|(Hk & Hc)].
+    - destruct (inv2_obligation size nfib st Sender I) as (j & Hj & _ & Ha & Hr).
+      + exists i. repeat split; try assumption. unfold can. apply Nat.ltb_lt. exact Hc.
+      + exists j. auto.
+    - destruct (inv2_obligation size nfib st Receiver I) as (j & Hj & _ & Ha & Hr).
+      + exists i. repeat split; try assumption. unfold can. apply Nat.ltb_lt. exact Hc.
+      + exists j. auto. }
+  apply (Hnone j Hj). split; assumption.
+Qed.
